@@ -44,7 +44,14 @@ def make_targets(Mark):
 
     class MyList(list):
         pass
-    return {'scalar': (str, 'builtin'), 'protocol': (Proto, 'protocol'), 'structural': (MyList, 'structural')}
+
+    class MyDict(dict):
+        pass
+    import enum
+    Col = enum.Enum('Col', {'RED': 1, 'GREEN': 2})
+    # every structural stage of the dispatch (enum, sequence, mapping) comes after the registered handlers
+    return {'scalar': (str, 'builtin'), 'protocol': (Proto, 'protocol'), 'structural': (MyList, 'structural'),
+            'enum': (Col, 'structural'), 'mapping': (MyDict, 'structural')}
 
 
 def find_tags(x, acc):
@@ -88,7 +95,7 @@ def run(ctx, out):
     n = 0
     for tname in list(targets):
         own_tag = targets[tname][1]
-        raw = 'text' if tname == 'scalar' else (['e'] if tname == 'structural' else 'payload')
+        raw = {'scalar': 'text', 'structural': ['e'], 'enum': 1, 'mapping': {'k': 1}}.get(tname, 'payload')
         for subset in itertools.chain.from_iterable(itertools.combinations(SOURCES, r) for r in range(len(SOURCES) + 1)):
             for sname, (wrap, wrapv) in shapes.items():
                 for subclassed in (False, True):
